@@ -38,6 +38,9 @@ type adaptiveAdmissionController struct {
 		cachedAt   time.Time
 		cachedOK   bool
 		refreshing bool
+		// gen counts store and config changes: a refresh that was started
+		// before one must not install its result after it.
+		gen uint64
 	}
 }
 
@@ -72,6 +75,7 @@ func (c *adaptiveAdmissionController) setStore(store queue.Store) {
 	c.trend.cachedAt = time.Time{}
 	c.trend.cachedOK = false
 	c.trend.refreshing = false
+	c.trend.gen++
 	c.trend.mu.Unlock()
 }
 
@@ -90,6 +94,7 @@ func (c *adaptiveAdmissionController) updateConfig(cfg config.AdaptiveBackpressu
 	c.trend.cachedAt = time.Time{}
 	c.trend.cachedOK = false
 	c.trend.refreshing = false
+	c.trend.gen++
 	c.trend.mu.Unlock()
 }
 
@@ -265,24 +270,32 @@ func (c *adaptiveAdmissionController) trendSnapshot() (queue.BacklogTrendSignals
 			return queue.BacklogTrendSignals{}, false
 		}
 		c.trend.refreshing = true
+		gen := c.trend.gen
 		c.trend.mu.Unlock()
-		return c.refreshTrendSync(trendStore, trendCfg, now)
+		return c.refreshTrendSync(trendStore, trendCfg, now, gen)
 	}
 
 	if !c.trend.refreshing {
 		c.trend.refreshing = true
-		go c.refreshTrendAsync(trendStore, trendCfg, now)
+		go c.refreshTrendAsync(trendStore, trendCfg, now, c.trend.gen)
 	}
 	signals := c.trend.cached
 	c.trend.mu.Unlock()
 	return signals, true
 }
 
-func (c *adaptiveAdmissionController) refreshTrendSync(trendStore queue.BacklogTrendStore, trendCfg config.TrendSignalsConfig, now time.Time) (queue.BacklogTrendSignals, bool) {
+func (c *adaptiveAdmissionController) refreshTrendSync(trendStore queue.BacklogTrendStore, trendCfg config.TrendSignalsConfig, now time.Time, gen uint64) (queue.BacklogTrendSignals, bool) {
 	signals, err := computeTrendSignals(trendStore, trendCfg, now)
 
 	c.trend.mu.Lock()
 	defer c.trend.mu.Unlock()
+	if c.trend.gen != gen {
+		// Store or config changed meanwhile: the result answers this call only.
+		if err != nil {
+			return queue.BacklogTrendSignals{}, false
+		}
+		return signals, true
+	}
 	c.trend.refreshing = false
 	if err == nil {
 		c.trend.cached = signals
@@ -296,11 +309,14 @@ func (c *adaptiveAdmissionController) refreshTrendSync(trendStore queue.BacklogT
 	return queue.BacklogTrendSignals{}, false
 }
 
-func (c *adaptiveAdmissionController) refreshTrendAsync(trendStore queue.BacklogTrendStore, trendCfg config.TrendSignalsConfig, now time.Time) {
+func (c *adaptiveAdmissionController) refreshTrendAsync(trendStore queue.BacklogTrendStore, trendCfg config.TrendSignalsConfig, now time.Time, gen uint64) {
 	signals, err := computeTrendSignals(trendStore, trendCfg, now)
 
 	c.trend.mu.Lock()
 	defer c.trend.mu.Unlock()
+	if c.trend.gen != gen {
+		return
+	}
 	c.trend.refreshing = false
 	if err != nil {
 		return
